@@ -364,6 +364,11 @@ func runC18(c *core.Ctx) {
 	// frees blocked writers is never reached
 	c.Rule("R11", "the sender's recover path releases the flag before closing (shared with C02-R3)", 1)
 	importObligations(c, runC02, "R11", func(o *core.Obligation) bool { return o.Rule == "R3" })
+	// "returns the context error and transmits nothing": no error return once the packet is in the queue
+	c.Rule("R13", "an enqueued packet is never reported as refused (shared with C01-R2)", 2)
+	importObligations(c, runC01, "R13", func(o *core.Obligation) bool {
+		return o.Rule == "R2" && (strings.Contains(o.Key, "no-error-after-enqueue") || strings.Contains(o.Key, "returns-enqueuer-error"))
+	})
 	// a writer released by a context is told so by that context: the arm selected on X.Done() that reports X'.Err()
 	// reports the error of the same X (the channel's own context reads nil while only the caller's has ended)
 	c.Rule("R12", "a select arm woken by a context's Done that returns a context's Err returns the Err of the same context", 2)
